@@ -371,7 +371,7 @@ func (x *Exec) seqOf(v Val, st *State) Val {
 }
 
 func (x *Exec) seqIndex(s Val, i *Term) Val {
-	return Val{T: Select(s.T, Add(s.Seq.Off, i)), Ty: s.Seq.Elem}
+	return Val{T: Select(s.T, IdxAdd(s.Seq.Off, i)), Ty: s.Seq.Elem}
 }
 
 // typeInv: facts that hold of every value of Go type ty allocated before
